@@ -19,7 +19,7 @@ from vf import core, frames, fresh, fresh_tasks
 PROPERTY = "C07"
 RULE = (
     "cases = histories (operation sequences): build(formula, frame), evaluate-common(design, frame), "
-    "evaluate-group(design, frame), set-config(mode), model_description(formula), rebuild(design) over a pool of 9 "
+    "evaluate-group(design, frame), set-config(mode), model_description(formula), rebuild(design) over a pool of 11 "
     "formulas x 4 frames (one with unseen levels so that the configuration matters, one with the shape of the training frame; one formula takes a function from extra_namespace and all builds share one captured Environment); all histories of "
     "length <= 3 over a reduced pool are enumerated, longer ones (up to 30 steps) come from a Hypothesis rule-based "
     "state machine; distinct = distinct history; non-trivial = some design is evaluated at least twice with different "
@@ -40,6 +40,8 @@ FORMULAS = [
     "np.abs(y) ~ standardize(z) + (z | g:f)",
     "y ~ f*g + binary(h, 'lo') + I(x * z)",
     "y ~ ext(x) + f",  # `ext` comes from extra_namespace; successive builds pass different functions under that name
+    "y ~ 0 + S(f) + C(g, Sum):x",  # full-rank and reduced sum codings
+    "y ~ 0 + T(g, 'g1') + poly(z, 2)",
 ]
 USES_EXT = {8}
 MODES = ["error", "warning", "silent"]
@@ -350,6 +352,24 @@ def _pairs_worker(ctx, arg):
     fresh.shutdown()
 
 
+# ---- build A, build B, look at both ------------------------------------------------------------------------
+def _build_pairs_worker(ctx, arg):
+    """build(fa, d0); build(fb, d1); evaluate both on a third frame: building another design (same or another formula,
+    same or other data) never changes an existing design or its later evaluations."""
+    shard, n = arg
+    i = 0
+    for fa in range(len(FORMULAS)):
+        for fb in range(len(FORMULAS)):
+            for da, db in ((0, 0), (0, 1), (1, 0)):
+                i += 1
+                if i % n != shard:
+                    continue
+                if ctx.skip():
+                    return
+                run_ops(ctx, [["build", fa, da], ["build", fb, db], ["eval_common", 0, 3], ["eval_common", 1, 3], ["eval_group", 0, 1], ["rebuild", 0]])
+    fresh.shutdown()
+
+
 # ---- state machine ----------------------------------------------------------------------------------------
 def make_machine(ctx):
     class Isolation(RuleBasedStateMachine):
@@ -430,5 +450,7 @@ def run(ctx):
     ctx.parallel(_pairs_worker, [(k, ns2, quick) for k in range(ns2)], nproc=ns2)
     ctx.exhaustive["build; set-config; evaluate; set-config; evaluate over 8 formulas x 9 mode pairs x frame pairs x part pairs"
                    + (" (quick: 3 frames, same part twice)" if quick else " (4 frames, all part pairs)")] = {"complete": True}
+    ctx.parallel(_build_pairs_worker, [(k, ns2) for k in range(ns2)], nproc=ns2)
+    ctx.exhaustive["build A; build B; evaluate A; evaluate B; evaluate-group A; rebuild A over all ordered pairs of formulas x 3 frame pairs"] = {"complete": True}
     per = 50 if quick else 400
     ctx.parallel(_machine_worker, [(k, per, 30) for k in range(ns)], nproc=ns)
